@@ -142,7 +142,11 @@ func runMulti(c MultiCase, o *vk.Obs) string {
 		}(i)
 	}
 	close(start)
-	wg.Wait()
+	allDone := make(chan struct{})
+	go func() { wg.Wait(); close(allDone) }()
+	if d := waitOrDeadlock(allDone); d != "" {
+		return d
+	}
 	for i, m := range msgs {
 		if m != "" {
 			return fmt.Sprintf("cache %d of %d, each used by its own goroutine only: %s", i+1, len(c.Caches), m)
